@@ -187,10 +187,35 @@ theorem delivered_eq_avail : ∀ {ops : List Op} {p : Parser}, SInv p → LegalA
 
 /-! ## Operation histories -/
 
+/-- Every `set_stream` call of the history names a stream that is not strictly later than the
+active one `E.s` (so it is a no-op — the active stream itself — or is rejected with
+`SequenceError`): the active stream does not change. -/
+def NoSwitch (E : Cfg) (ops : List Op) : Prop :=
+  ∀ st, Op.setStream st ∈ ops → ∃ s', st = some s' ∧ ¬ Later E.role (some E.s) s'
+
+theorem noSwitch_of_noSet {E : Cfg} {ops : List Op} (h : NoSet ops) : NoSwitch E ops :=
+  fun st hm => absurd hm (h st)
+
+/-- A legal `set_stream(Some(s'))` with `s'` not later than the active stream leaves the parser
+as it is. -/
+theorem applyOp_setStream_noSwitch {E : Cfg} {p : Parser} (hm : Match E p) {s' : Nat}
+    (hl : Legal p (.setStream (some s'))) (hnl : ¬ Later E.role (some E.s) s') :
+    applyOp p (.setStream (some s')) = p := by
+  have hcur : ∀ e, p.stream = some e → RT.isInputStream e = true := by
+    intro e he
+    rw [hm.strm] at he; cases he
+    exact mem_inputStreams_isInput hm.mem
+  simp only [applyOp]
+  rw [setStream_some_input p hl hcur, hm.strm, hm.role, if_neg hnl]
+  by_cases h : some E.s = some s'
+  · rw [if_pos h]
+  · rw [if_neg h]
+
 /-- **The reference over a legal operation history** (any interleaving of `parse` with any `dest`
-and any new input, `consume_stream`, `compress`, `consume_output`).  `x` = bytes never fed. -/
-theorem ops_ref {E : Cfg} {x : Bytes} : ∀ (ops : List Op) (p : Parser),
-    Match E p → SInv p → LegalAll p ops → NoSet ops →
+and any new input, `consume_stream`, `compress`, `consume_output`, and `set_stream` calls that do
+not change the active stream).  `x` = bytes never fed. -/
+theorem ops_refS {E : Cfg} {x : Bytes} : ∀ (ops : List Op) (p : Parser),
+    Match E p → SInv p → LegalAll p ops → NoSwitch E ops →
     ∃ lost, Match E (applyOps p ops) ∧ SInv (applyOps p ops) ∧
       availOps p ops ++ lost ++ (Rem E (applyOps p ops) x).content =
         (Rem E p (fedBytes ops ++ x)).content ∧
@@ -207,7 +232,7 @@ theorem ops_ref {E : Cfg} {x : Bytes} : ∀ (ops : List Op) (p : Parser),
   | cons op t ih =>
     intro p hm hinv hl hns
     obtain ⟨hl1, hl2⟩ := hl
-    have hns' : NoSet t := fun s hm => hns s (List.mem_cons_of_mem _ hm)
+    have hns' : NoSwitch E t := fun s hm => hns s (List.mem_cons_of_mem _ hm)
     have hinv' := (step_safe hinv hl1).1
     have keep : ∀ (op' : Op), op = op' → fedBytes (op' :: t) = fedBytes t →
         availOp p op' = [] → C03S.outGrowth p op' = [] →
@@ -285,7 +310,23 @@ theorem ops_ref {E : Cfg} {x : Bytes} : ∀ (ops : List Op) (p : Parser),
       exact keep _ rfl rfl rfl rfl rfl rfl rfl rfl rfl rfl rfl trivial
     | compress => exact keep _ rfl rfl rfl rfl rfl rfl rfl rfl rfl rfl rfl trivial
     | consumeOutput amt => exact keep _ rfl rfl rfl rfl rfl rfl rfl rfl rfl rfl rfl trivial
-    | setStream s => exact absurd List.mem_cons_self (hns s)
+    | setStream st =>
+      obtain ⟨s', rfl, hnl⟩ := hns st List.mem_cons_self
+      have happ := applyOp_setStream_noSwitch hm hl1 hnl
+      exact keep _ rfl rfl rfl rfl (by rw [happ]) (by rw [happ]) (by rw [happ]) (by rw [happ])
+        (by rw [happ]) (by rw [happ]) (by rw [happ]) trivial
+
+/-- `ops_refS` for histories without `set_stream`. -/
+theorem ops_ref {E : Cfg} {x : Bytes} (ops : List Op) (p : Parser)
+    (hm : Match E p) (hinv : SInv p) (hl : LegalAll p ops) (hns : NoSet ops) :
+    ∃ lost, Match E (applyOps p ops) ∧ SInv (applyOps p ops) ∧
+      availOps p ops ++ lost ++ (Rem E (applyOps p ops) x).content =
+        (Rem E p (fedBytes ops ++ x)).content ∧
+      C03S.grownAll p ops ++ (Rem E (applyOps p ops) x).out = (Rem E p (fedBytes ops ++ x)).out ∧
+      (Rem E (applyOps p ops) x).verdict = (Rem E p (fedBytes ops ++ x)).verdict ∧
+      (Rem E (applyOps p ops) x).unread = (Rem E p (fedBytes ops ++ x)).unread ∧
+      (FirstErrInternal p ops → lost = []) :=
+  ops_refS ops p hm hinv hl (noSwitch_of_noSet hns)
 
 /-! ## Drained states -/
 
